@@ -9,7 +9,7 @@ from canalyze.ir import walk, strip, const_eval, show, callee_name
 from canalyze import flow
 from canalyze.peval import PEval
 
-P = ['C08']
+P = ['C08', 'C07']
 
 
 def _stores_to(node, field):
@@ -304,7 +304,7 @@ def head_delta(ctx):
     read only to (re)load the timer; every other read - in particular adding it to the successor when the head is
     removed - shifts all later events by the part of the interval that has already elapsed."""
     m = ctx.m
-    props = ['C08', 'C10']
+    props = ['C08', 'C10', 'C07']
     DELTA = ('CO_TMR_TIME', 'Delta')
     USE = ('CO_TMR', 'Use')
     n_reads = 0
@@ -484,7 +484,7 @@ def equal_expiry_merge(ctx):
     m = ctx.m
     f = 'COTmrInsert'
     m.need(f)
-    props = ['C08', 'C10']
+    props = ['C08', 'C10', 'C07']
     fn = m.funcs[f]
     ints = [p for p in fn.params if not is_pointer_type(p[2])]
     if len(ints) != 1:
